@@ -214,7 +214,7 @@ pub fn property(_ctx: &Ctx) -> Property {
         id: "C19",
         rule: "part views: sizes 0..9 x 0..9 with arbitrary pixel words, arbitrary bytes written through get_data_u8_mut, arbitrary a,r,g,b for to_u32; oracle = word/byte layout model (A<<24|R<<16|G<<8|B; bytes B,G,R,A), cross-view visibility and from_vec/from_backing/into_vec/into_inner round trips (owned and borrowed backings). part png: premultiplied words (alpha-0 pixels with arbitrary colour bytes) written by write_png and decoded with the png crate; oracle = un-premultiply model floor(c*255/a), alpha unchanged, row-major RGBA8. Non-trivial: >=2 distinct pixels, w != h and pairwise different channel bytes (so a channel swap or transposition is visible); distinct by hash of the case.",
         assumptions: vec!["little-endian target", "the png crate's decoder is trusted"],
-        parts: vec![part_outside_c07("views", 20_000, 400_000, view_strategy, check_views), part("png", 6_000, 100_000, png_strategy, check_png)],
+        parts: vec![part_outside_c07("views", 60_000, 600_000, view_strategy, check_views), part("png", 20_000, 200_000, png_strategy, check_png)],
         min_class_fraction: vec![("png", "translucent", 0.5), ("png", "transparent-with-colour", 0.1)],
         panic_is_violation: false,
     }
